@@ -178,11 +178,11 @@ def shape(rng, op, n, ntt_only=False, force=None):
         bkey = rng.choice([4, 7, 10, 12, 13, 15, 17])
     mism = rng.below(4)          # radix mismatch class
     def other():
-        return max(2, rng.choice([bkey - 1, bkey + 1, bkey - 3, bkey + 4, 5, 9, 19, 2 * bkey, bkey // 2 + 1]))
+        return min(50, max(2, rng.choice([bkey - 1, bkey + 1, bkey - 3, bkey + 4, 5, 9, 19, 2 * bkey, bkey // 2 + 1])))
     bin_ = bkey if mism in (0, 2) else other()
     bout = bkey if mism in (0, 1) else other()
     if mism == 3 and rng.chance(1, 2):
-        bout = bin_ + 1 if bin_ + 1 != bkey else bin_ + 2          # three distinct radices
+        bout = bin_ - 1 if bin_ - 1 not in (bkey, 1) else bin_ + 1          # three distinct radices
     dsize = force.get("dsize", rng.choice([1, 1, 2, 3, 3, 4]))
     if op in ("lwe_ks", "glwe_to_lwe", "lwe_to_glwe"):
         dsize = 1
@@ -237,7 +237,7 @@ def generate(ctx, rng):
     quick = ctx.tier == "quick"
     cases = []
     # (a) the plain key-switch over the shape classes; dsize 3/4 over-represented
-    for k in range(36 if quick else 400):
+    for k in range(240 if quick else 3000):
         n = [8, 16, 32][k % 3]
         force = {"dsize": [1, 2, 3, 4, 3, 4][k % 6]} if k % 2 == 0 else None
         cases.append(shape(rng, "ks" if k % 4 else "ks_assign", n, ntt_only=(k % 7 == 6), force=force))
@@ -249,7 +249,7 @@ def generate(ctx, rng):
             gg = g if g < n else g - 2 * n        # signed representative, as galois_element(-t) produces
             cases.append(shape(rng, op, n, force={"p": gg if k % 3 else g, "dsize": [1, 2, 3, 4][k % 4]}))
             k += 1
-    for k2 in range(16 if quick else 200):
+    for k2 in range(96 if quick else 1200):
         n = [8, 16, 32][k2 % 3]
         g = 2 * rng.below(n) + 1
         cases.append(shape(rng, FUSED[k2 % len(FUSED)], n, ntt_only=(k2 % 5 == 4), force={"p": g, "dsize": [3, 1, 4, 2][k2 % 4]}))
@@ -257,13 +257,13 @@ def generate(ctx, rng):
     for n in [8, 16, 32]:
         logn = n.bit_length() - 1
         for skip in range(0, logn + 1):
-            for op in (["trace", "trace_assign"] if (not quick or skip % 2 == 0) else ["trace_assign"]):
+            for op in ["trace", "trace_assign"] * (1 if quick else 6):
                 cases.append(shape(rng, op, n, force={"skip": skip, "dsize": rng.choice([1, 1, 2, 3])}))
     # (d) LWE <-> GLWE, every extraction index for N = 8 (thorough: all N)
-    for n in ([8] if quick else [8, 16, 32]):
+    for n in ([8, 16] if quick else [8, 16, 32]):
         for idx in range(n):
             cases.append(shape(rng, "glwe_to_lwe", n, force={"idx": idx}))
-    for k3 in range(8 if quick else 120):
+    for k3 in range(64 if quick else 800):
         n = [8, 16, 32][k3 % 3]
         cases.append(shape(rng, ["lwe_ks", "lwe_to_glwe", "glwe_to_lwe", "extract"][k3 % 4], n, ntt_only=(k3 % 6 == 5),
                            force={"idx": rng.below(n)}))
